@@ -715,3 +715,12 @@ def arg_for_param(callee, call, pname):
         if i < len(call.args) and not any(isinstance(a, ast.Starred) for a in call.args[: i + 1]):
             return call.args[i]
     return None
+
+
+def targets_of_funcs(ctx, fi, call):
+    """resolved internal callees (FuncInfo objects) of a call"""
+    try:
+        tg, _ext = ctx.calls.resolve_call(fi, call)
+    except Exception:
+        return []
+    return list(tg)
